@@ -44,6 +44,7 @@ type PropertyDef struct {
 	OnlyClauses  map[string][]string // function key -> ensures labels that belong to this property (nil = all)
 	ReplayHints  map[string]string
 	NeedsClauses map[string][]string // named clauses that must have produced obligations (vacuity)
+	OnlySafe     bool
 	LevelText    string
 	LevelNote    string
 	Technique    string
@@ -134,6 +135,7 @@ func cmdCheck(args []string) int {
 	run := &checkRun{prop: prop, tier: tier, seed: seed}
 	eng := newEngine(repoDir())
 	eng.requireVariants = prop.RequireVars
+	eng.onlySafe = prop.OnlySafe
 	if err := eng.load(prop.Patterns...); err != nil {
 		// a tree that does not build is a tool error, not a violation
 		fmt.Fprintln(os.Stderr, "TOOL-ERROR:", err)
@@ -229,7 +231,7 @@ func (run *checkRun) verdict(eng *Engine, outDir string) int {
 			code = 1
 		}
 		for _, o := range r.Cover {
-			if o.Result.Status != "sat" {
+			if o.Result.Status == "unsat" {
 				// the assumptions of this function are contradictory or the
 				// exit is unreachable: the proof would be vacuous
 				run.toolErrors = append(run.toolErrors, fmt.Sprintf("vacuity probe %s answered %s", o.Name, o.Result.Status))
